@@ -16,9 +16,9 @@ ALPHABET = "ab/.-_*?[]!^\\z0c~&|{ ABPZ"
 DIRECTED = ["*", "p", "P", "[a-c]", "[A-C]", "*.VTU", "*.vtu", "run1/*", "p_*", "*_tmp", "[z-a]", "[!z-a]", "[a-]", "[-a]", "[!-a]", "[a-b-c]", "[a-c-]", "[--a]", "[!!]",
             "[\\-a]", "[]a]", "[!]a]", "[]", "[!]", "[", "[a", "a[", "[a-cx-z]", "[!a-cx-z]b", "**", "*?*", "?", "", "[^a]", "[[]", "[a[b]",
             "[b-a-c]", "[!b-a]", "a/*/b", "*/*", "[a-c]?.csv", "[&~|]", "[!&]", "x[a-c-e]y", "[a-a]", "[a--]", "[!--0]", "*[!.]*",
-            "[c-a-z]", "[az-a]", "[a-zz-a]x"]
+            "[c-a-z]", "[az-a]", "[a-zz-a]x", "p[0-9]", "u_[xyz]", "[!u]", "p_[!0-9]", "[--z]"]
 NAMES = ["", "a", "b", "z", "A", "P", "p", "Ab", "aB", "RUN1/a", "X/Y.VTU", "-", "a/b", "run1/a/b.csv", "run2/a.csv", "x/y.vtu", "x/y.vtp", "p_1", "s_tmp", "b1.csv", "]", "[", "!", "^",
-         "\\", "a-c", "ab", "abc", ".", "..", "a/", "/a", "&", "~", "|", "xay", "x-y", "xdy", "0", "a\nb"]
+         "\\", "a-c", "ab", "abc", ".", "..", "a/", "/a", "&", "~", "|", "xay", "x-y", "xdy", "0", "a\nb", "p7", "u_y", "u", "p_x"]
 
 
 def cstr(s: str) -> str:
